@@ -379,4 +379,10 @@ def Cursor.posString (c : Cursor) : String :=
   | some top => s!"{top.pos.bytes} {top.pos.extent.row} {top.pos.extent.column}"
   | none => "?"
 
+/-- Runtime form of the linkage part of `StackOK` (hypothesis of the cursor-walk theorems): every
+entry is the child of the entry below it at its recorded raw index (compared by node data). -/
+def stackLinked : List Entry → Bool
+  | e :: p :: rest => ((p.t.kids[e.childIndex]?).map (·.data) == some e.t.data) && stackLinked (p :: rest)
+  | _ => true
+
 end TsVerif.C06
